@@ -49,6 +49,25 @@ def run(res, ctx):
         A.append({"rows": a_rows, "inits": inits})
         B.append({"rows": b_rows, "inits": {}})
         I.append({"rows": i_rows, "inits": inits})
+    # crafted: inputs given as TWO files whose rows all settle on one day, the other security's rows
+    # standing in front of this security's rows in the second file (position in the input must not matter)
+    for _ in range(25 if tier == "quick" else 250):
+        d0 = core.BASE_DAY + rng.randint(10, 600)
+        def _r(sec, act, sh, aps):
+            return {"sec": sec, "td": d0, "sd": d0, "act": act, "sh": core.D(sh), "aps": core.D(aps),
+                    "com": None, "cur": None, "rate": None, "af": None}
+        n1 = rng.randint(2, 20)
+        a1 = [_r("FOO", "Buy", n1, rng.randint(5, 30)), _r("FOO", "Sell", rng.randint(1, n1), rng.randint(5, 30))]
+        a2 = [_r("FOO", "Buy", rng.randint(1, 9), rng.randint(5, 30))]
+        if rng.random() < 0.5:
+            a2.append(_r("FOO", "Sell", 1, rng.randint(5, 30)))
+        nb = rng.randint(1, 4)
+        b2 = [_r("QUX", "Buy", 3, 7)] + [_r("QUX", "Sell", rng.choice([1, 1, 9]), 8) for _ in range(nb - 1)]
+        b1 = [_r("QUX", "Buy", 2, 7)] if rng.random() < 0.4 else []
+        f1, f2 = b1 + a1, b2 + a2
+        A.append({"rows": a1 + a2, "inits": {}, "files": [core.to_csv(a1), core.to_csv(a2)]})
+        B.append({"rows": b1 + b2, "inits": {}, "files": ([core.to_csv(b1)] if b1 else []) + [core.to_csv(b2)]})
+        I.append({"rows": f1 + f2, "inits": {}, "files": [core.to_csv(f1), core.to_csv(f2)]})
     ra = corecheck.run_cases(ctx, A, render=True)
     rb = corecheck.run_cases(ctx, B, render=True)
     ri = corecheck.run_cases(ctx, I, render=True)
